@@ -84,6 +84,7 @@ def gen_calls(rng, P):
         # one update, one evaluation, every derivative index in turn
         return [("params",), ("set", [11 + ((7 * i) % 88) for i in range(P)]), ("eval",)] + [("deriv", k) for k in range(P)]
     calls = [("params",), ("eval",)]
+    vals = None
     for _ in range(rng.randint(1, 3)):
         vals = rng.sample(range(11, 99), P)
         calls.append(("set", vals))
@@ -93,6 +94,19 @@ def gen_calls(rng, P):
         rng.shuffle(ks)
         for k in ks:
             calls.append(("deriv", k))
+    # partial updates: one parameter moves, all others keep their value bit for bit — every derivative and the evaluation must
+    # still follow (nothing may be remembered per parameter)
+    for _ in range(rng.randint(1, 2)):
+        j = rng.randrange(P)
+        vals = list(vals)
+        vals[j] = vals[j] + 100
+        calls.append(("set", vals))
+        for k in range(P):
+            calls.append(("deriv", k))
+        calls.append(("eval",))
+    # and the same vector again
+    calls.append(("set", list(vals)))
+    calls.append(("deriv", rng.randrange(P)))
     return calls
 
 
